@@ -721,6 +721,47 @@ FN_OVERLAYS['vector::float_vector_multiply_scalar'] = dict(loops={0: '''
             let ghost fv0 = $FV.values@;
 '''})
 
+# INTVECTOR.SORT*ASC / DESC: a sorted permutation of the top vector, in place (std slice::sort: assumed contract T-std + the i32 axiom)
+for nm, cmp in [('INTVECTOR.SORT*ASC', '<='), ('INTVECTOR.SORT*DESC', '>=')]:
+    row(nm, ['C09'], touches=['intvec'], clauses=[
+        ('fired.sorted-permutation', 'S0.intvec.len() >= 1 ==> (S1.intvec.len() == S0.intvec.len() && drop_n(S1.intvec, 1) =~= drop_n(S0.intvec, 1) '
+         '&& top(S1.intvec, 0).values@.len() == %s.len() && top(S1.intvec, 0).values@.to_multiset() == %s.to_multiset() '
+         '&& (forall|i: int, j: int| 0 <= i < j < %s.len() ==> top(S1.intvec, 0).values@[i] %s top(S1.intvec, 0).values@[j]))' % (_iv, _iv, _iv, cmp)),
+        ('{C09,C10}unfired.intvec', 'S0.intvec.len() == 0 ==> S1.intvec == S0.intvec')])
+FN_OVERLAYS['vector::int_vector_sort_desc'] = dict(proofs={'body_start': '''        proof {
+            if push_state.int_vector_stack@.len() >= 1 {
+                let v0 = top(push_state.int_vector_stack@, 0).values@;
+                crate::tstd::slice_sorted(v0).lemma_reverse_to_multiset();
+            }
+        }
+'''})
+
+# INTVECTOR.REMOVE: every occurrence of the top INTEGER is removed from the top INTVECTOR, the rest keeps its order (R9g: Vec::retain)
+row('INTVECTOR.REMOVE', ['C09'], touches=['intvec', 'int'], clauses=[
+    top_vec_becomes('intvec', '%swithout(%s, top(S0.int, 0), %s.len())' % (V_, _iv, _iv), 'S0.intvec.len() >= 1 && S0.int.len() >= 1'),
+    ('fired.int', '(S0.intvec.len() >= 1 && S0.int.len() >= 1) ==> S1.int =~= S0.int.drop_last()'),
+    ('{C09,C10}unfired.intvec', '!(S0.intvec.len() >= 1 && S0.int.len() >= 1) ==> S1.intvec == S0.intvec'),
+    ('{C09,C10}unfired.int', 'S0.intvec.len() == 0 ==> S1.int == S0.int')])
+FN_OVERLAYS['vector::int_vector_remove'] = dict(loops={0: '''
+            //bind IT = if let Some\\((\\w+)\\) = push_state\\.int_vector_stack\\.get_mut\\(0\\)
+            //bind X = if let Some\\((\\w+)\\) = push_state\\.int_stack\\.pop\\(\\)
+            invariant r9_j <= r9_v0.len(), r9_k == crate::push::vector::without(r9_v0, $X, r9_j).len(),
+                $IT.values@ =~= crate::push::vector::without(r9_v0, $X, r9_j) + r9_v0.subrange(r9_j as int, r9_v0.len() as int),
+            ensures $IT.values@ =~= crate::push::vector::without(r9_v0, $X, r9_v0.len()),
+            decreases r9_v0.len() - r9_j,
+'''}, proofs={'loop 0 before': '''            //bind IT = if let Some\\((\\w+)\\) = push_state\\.int_vector_stack\\.get_mut\\(0\\)
+            let ghost r9_v0 = $IT.values@;
+            let ghost mut r9_j: nat = 0;
+''', 'loop 0 start': '''            //bind IT = if let Some\\((\\w+)\\) = push_state\\.int_vector_stack\\.get_mut\\(0\\)
+            //bind X = if let Some\\((\\w+)\\) = push_state\\.int_stack\\.pop\\(\\)
+            proof {
+                crate::push::vector::lemma_without_len(r9_v0, $X, r9_j);
+                assert(r9_j < r9_v0.len());
+                assert($IT.values@[r9_k as int] == r9_v0[r9_j as int]);
+            }
+''', 'loop 0 end': '''            proof { r9_j = r9_j + 1; }
+'''})
+
 # ------------------------------------------------------------------ C13 / C12: RAND instructions (values: relative to the RNG contract)
 row('BOOLEAN.RAND', ['C13'], pushes=[('bool', None)])
 row('INTEGER.RAND', ['C13'], fired='(S0.config.min_random_integer < S0.config.max_random_integer)',
